@@ -12,14 +12,16 @@ Safety (every reachable state, every interleaving):
 * `c14_only_expired_step`, `c14_only_expired`, `c14_not_expired_kept`, `c14_evicted_value_expired`,
   `f4_f5_regression_examples`.
 Registration (every run from `init`, every interleaving, sane times):
-* `registered_inv` — with the F6 case (registered in a bucket that was already swept) as an explicit
-  disjunct, and `f6_counterexample`: a run in which that case occurs and the item stays resident.
-Liveness (step-indexed: one complete sweep, from the applier's tick step to its return to idle):
+* `registered_inv` — every stored entry with a TTL is registered, with its conflict, in a bucket that is
+  still ahead of the sweep (its own bucket, or `lastCleaned + 1` for a late arrival: the repair of F6),
+  or is held by the running sweep.  `f6_regression_example`: the former F6 witness run now ends with the
+  late item reclaimed by the next sweep.
+Liveness (step-indexed: one complete sweep, from the applier's tick step to its return to idle; premise:
+the entry is resident with a TTL, the sweep's clock covers its bucket and at least one new bucket):
 * `c14_reclaimed_partial` — with arbitrary interleaved client steps that leave `k`'s entry alone: `k` is
   removed from store and policy, one `evict` for `k` directly followed by `exit v`.  (`_partial`: no claim
   about the index in the interleaved case.)
-* `c14_reclaimed_isolated` — applier steps only: additionally the bucket is gone from the index.
-The premise `lastCleaned < bucketOf e.exp` is exactly what F6 breaks.
+* `c14_reclaimed_isolated` — applier steps only: additionally the registration bucket is gone from the index.
 -/
 namespace RV.C14
 open RV RV.Cache Gen.Cache
@@ -134,23 +136,26 @@ example :
 
 /-- **`registered_inv`.**  Along every run from the initial state (created at clock `now0`), for sane
 times: every stored entry with a TTL is
-* registered in the index, in bucket `bucketOf e.exp`, with its conflict, and that bucket is still
-  ahead of the sweep (`lastCleaned < bucket`) — the next sweep that covers it will visit the key; or
+* registered in the index with its conflict in some bucket `b'` that is still ahead of the sweep
+  (`lastCleaned < b'`), where `b'` is `bucketOf e.exp`, or — for an entry that was applied after its own
+  bucket had been cleaned up — `lastCleaned + 1`, the next bucket to be cleaned up (`bucketOf e.exp ≤ b'`
+  in both cases): the next sweep that covers `b'` visits the key; or
 * its bucket has been grabbed by the sweep that is running right now (clock read `now`), which still
-  has the key in its todo list (or is at it); or
-* **(finding F6)** registered in a bucket that had already been swept (`bucket ≤ lastCleaned`): no later
-  sweep visits that bucket; see `f6_counterexample`. -/
+  has the key in its todo list (or is at it).
+The statement is existential in `b'` and therefore tolerates stale index entries of the key in other
+buckets (`Em.del`/`Em.update` look the key up under `bucketOf oldExp` only); the sweep's `DelExpired`
+re-checks the store (`c14_only_expired_step`).  The former third case (finding F6: registered in a bucket
+`≤ lastCleaned`) is gone. -/
 theorem registered_inv {cfg : Cfg} {now0 : Time} {acts : List Action} {s : State}
     (hrun : run cfg (init cfg now0) acts = some s) (h0 : TimeOk now0) (h1 : TimeOk s.clock)
     {k : Hash} {e : Entry} (hl : s.store.lookup k = some e) (hz : e.exp ≠ Gen.zeroTime) (he : TimeOk e.exp) :
-    (Registered s.em k e ∧ s.em.lastCleaned < bucketOf e.exp) ∨
-    (∃ now, Todo k e.conflict now s.app ∧ bucketOf e.exp ≤ cleanupOf now ∧ now ≤ s.clock) ∨
-    (Registered s.em k e ∧ bucketOf e.exp ≤ s.em.lastCleaned) := by
-  rcases (regInv_run hrun).2 k e hl hz with h | ⟨now, _, b, c, d⟩ | h
-  · by_cases h' : s.em.lastCleaned < bucketOf e.exp
-    · exact Or.inl ⟨h, h'⟩
-    · exact Or.inr (Or.inr ⟨h, Int.not_lt.mp h'⟩)
-  · exact Or.inr (Or.inl ⟨now, d, c, b⟩)
+    (∃ b', s.em.lastCleaned < b' ∧ bucketOf e.exp ≤ b' ∧
+        (b' = bucketOf e.exp ∨ b' = s.em.lastCleaned + 1) ∧
+        ∃ m, s.em.buckets.lookup b' = some m ∧ m.lookup k = some e.conflict) ∨
+    (∃ now, Todo k e.conflict now s.app ∧ bucketOf e.exp ≤ cleanupOf now ∧ now ≤ s.clock) := by
+  rcases ((regInv_run h0 hrun).2 h1).2 k e hl hz with ⟨b', a, b, _, c, d⟩ | ⟨now, _, b, c, d⟩ | h
+  · exact Or.inl ⟨b', a, b, c, d⟩
+  · exact Or.inr ⟨now, d, c, b⟩
   · exact absurd h (lost_impossible h0 h1 he)
 
 def apIsTick : APc → Bool | .tick => true | _ => false
@@ -162,23 +167,25 @@ def exSetBuffered : List Action :=
 /-- a complete (empty) sweep: tick, grab, nothing to do -/
 def exEmptySweep : List Action := [.applier .selTick, .applier .none, .applier .none]
 
-/-- **`f6_counterexample`** (open finding F6).  The item (expiration 1 s, bucket 1) waits in the write
-buffer while the sweep at 10 s passes over bucket 1 (`lastCleaned := 2`); it is applied afterwards and
-registered in bucket 1.  After complete sweeps at 100 s and at 1000 s it is still in the store, still
-accounted by the policy, still registered in bucket 1 `≤ lastCleaned`: expiry processing never
-reclaims it (reads do not serve it — C07 — but its capacity is not released). -/
-def exF6 : List Action :=
+/-- the former F6 witness up to the late application of the item: it waits in the write buffer while the
+sweep at 10 s passes over its bucket 1 (`lastCleaned := 2`) and is applied afterwards -/
+def exF6Late : List Action :=
   exSetBuffered ++ [.tick 10000000000] ++ exEmptySweep ++
-    [.applier .selItem, .applier .none, .applier (.add [] true), .applier .none] ++
-    [.tick 90000000000] ++ exEmptySweep ++ [.tick 900000000000] ++ exEmptySweep
+    [.applier .selItem, .applier .none, .applier (.add [] true), .applier .none]
 
-theorem f6_counterexample :
-    ((run exCfg (init exCfg 0) exF6).map fun s =>
-        (s.store.lookup 1#64, s.pol.costs.lookup 1#64, s.pol.used, APc.isIdle s.app, s.clock))
-      = some (some ⟨0#64, 7, 1000000000⟩, some 1, 1, true, 1000000000000) ∧
-    ((run exCfg (init exCfg 0) exF6).map fun s =>
-        ((s.em.buckets.lookup 1).map (fun m => m.lookup 1#64), bucketOf 1000000000, s.em.lastCleaned, s.log.take 1))
-      = some (some (some 0#64), 1, 200, [.setRet 0 7 true]) := by
+/-- **`f6_regression_example`** (finding F6, repaired).  The late item (expiration 1 s, bucket 1 ≤
+`lastCleaned = 2`) is now registered in bucket 3 = `lastCleaned + 1`; the next sweep (at 100 s, covering
+buckets 3…20) visits key 1 and reclaims it: gone from the store, cost released, reported once. -/
+theorem f6_regression_example :
+    ((run exCfg (init exCfg 0) exF6Late).map fun s =>
+        (s.store.lookup 1#64, s.pol.used, (s.em.buckets.lookup 1).isSome,
+         (s.em.buckets.lookup 3).map (fun m => m.lookup 1#64), s.em.lastCleaned))
+      = some (some ⟨0#64, 7, 1000000000⟩, 1, false, some (some 0#64), 2) ∧
+    ((run exCfg (init exCfg 0)
+        (exF6Late ++ [.tick 90000000000, .applier .selTick, .applier .none, .applier (.key 1#64), .applier .none,
+          .applier .none, .applier .none, .applier .none])).map fun s =>
+        (s.store.lookup 1#64, s.pol.costs.lookup 1#64, s.pol.used, APc.isIdle s.app && s.em.lastCleaned == 20, s.log.take 2))
+      = some (none, none, 0, true, [.exit 7, .evict 1#64 0#64 7 1]) := by
   decide
 
 /-! ## Liveness -/
@@ -204,62 +211,91 @@ theorem runSweep_of_run {cfg : Cfg} {s s' : State} {chs : List Choice}
       · rename_i hidle; exact absurd hidle h0
       · exact this
 
-/-- **`c14_reclaimed_isolated`** (liveness; the sweep run in isolation).  Let the applier be at its tick
-step (`apTick`) in a state where the store holds `e` under `k`, `e` has a TTL, is registered in bucket
-`b = bucketOf e.exp` with its conflict, `lastCleaned < b ≤ cleanupBucket(clock)` (the premise that F6
-breaks), times are sane.  Run applier steps only, none of them starting at `idle`, until the applier is
-back at `idle`.  Then `k` is gone from the store and from the policy's cost table (its capacity is
-released), bucket `b` is gone from the index, and during this run exactly one `OnEvict` for `k` was
-emitted — `evict k _ e.value _` directly followed by `exit e.value`. -/
-theorem c14_reclaimed_isolated {cfg : Cfg} {s s' : State} {k : Hash} {e : Entry} {m : AMap Hash Conf}
+/-- where a resident entry with a TTL is registered when the applier is about to sweep, and that the sweep
+covers that bucket as soon as it covers the entry's own bucket and at least one new bucket -/
+theorem registration_at_tick {cfg : Cfg} {now0 : Time} {pre : List Action} {s : State} {k : Hash} {e : Entry}
+    (hpre : run cfg (init cfg now0) pre = some s) (h0 : TimeOk now0) (hclk : TimeOk s.clock)
+    (hpc : s.app = .tick) (hst : s.store.lookup k = some e) (hz : e.exp ≠ Gen.zeroTime) (hexp : TimeOk e.exp)
+    (hcov : bucketOf e.exp ≤ cleanupOf s.clock) (hadv : s.em.lastCleaned < cleanupOf s.clock) :
+    ∃ b' m, BucketOk b' ∧ bucketOf e.exp ≤ b' ∧ s.em.buckets.lookup b' = some m ∧ m.lookup k = some e.conflict ∧
+      LcOk s.em.lastCleaned ∧ s.em.lastCleaned < b' ∧ b' ≤ cleanupOf s.clock := by
+  have hbody := (regInv_run h0 hpre).2 hclk
+  rcases hbody.2 k e hst hz with ⟨b', a, b, c, d, m, f, g⟩ | ⟨now, _, _, _, d⟩ | h
+  · refine ⟨b', m, c, b, f, g, hbody.lcOk h0 hclk, a, ?_⟩
+    rcases d with d | d
+    · rw [d]; exact hcov
+    · rw [d]; omega
+  · rw [hpc] at d; simp [Todo] at d
+  · exact absurd h (lost_impossible h0 hclk hexp)
+
+/-- **`c14_reclaimed_isolated`** (liveness; the sweep run in isolation).  Take any run from the initial
+state to a state `s` where the applier is at its tick step (`apTick`); the store holds `e` under `k` and
+`e` has a TTL; the sweep's clock covers the entry's bucket (`bucketOf e.exp ≤ cleanupBucket(clock)`:
+the expiration lies at least one bucket period back) and at least one bucket that has not been cleaned
+yet (`lastCleaned < cleanupBucket(clock)`); times are sane.  Run applier steps only, none of them
+starting at `idle`, until the applier is back at `idle`.  Then `k` is gone from the store and from the
+policy's cost table (its capacity is released), the bucket `b'` it was registered in is gone from the
+index, and during this run exactly one `OnEvict` for `k` was emitted — `evict k _ e.value _` directly
+followed by `exit e.value`.  No premise about where or when the entry was registered: late arrivals are
+covered since the repair of F6. -/
+theorem c14_reclaimed_isolated {cfg : Cfg} {now0 : Time} {pre : List Action} {s s' : State} {k : Hash} {e : Entry}
     {chs : List Choice}
-    (hpc : s.app = .tick) (hst : s.store.lookup k = some e) (hz : e.exp ≠ Gen.zeroTime)
-    (hreg : s.em.buckets.lookup (bucketOf e.exp) = some m) (hregk : m.lookup k = some e.conflict)
-    (hlc : -(2:Int)^63 ≤ s.em.lastCleaned) (hnew : s.em.lastCleaned < bucketOf e.exp)
-    (hcov : bucketOf e.exp ≤ cleanupOf s.clock) (hexp : TimeOk e.exp) (hclk : TimeOk s.clock)
+    (hpre : run cfg (init cfg now0) pre = some s) (h0 : TimeOk now0) (hclk : TimeOk s.clock)
+    (hpc : s.app = .tick) (hst : s.store.lookup k = some e) (hz : e.exp ≠ Gen.zeroTime) (hexp : TimeOk e.exp)
+    (hcov : bucketOf e.exp ≤ cleanupOf s.clock) (hadv : s.em.lastCleaned < cleanupOf s.clock)
     (hrun : run cfg s (chs.map .applier) = some s')
     (hbusy : ∀ i, i < chs.length → ∀ si, run cfg s ((chs.take i).map .applier) = some si → si.app ≠ .idle)
     (hidle : s'.app = .idle) :
     s'.store.lookup k = none ∧ s'.pol.costs.lookup k = none ∧
-    s'.em.buckets.lookup (bucketOf e.exp) = none ∧
+    (∃ b' m, bucketOf e.exp ≤ b' ∧ s.em.buckets.lookup b' = some m ∧ m.lookup k = some e.conflict ∧
+      s'.em.buckets.lookup b' = none) ∧
     evictCount k s'.log = evictCount k s.log + 1 ∧
     ∃ l1 l2 c cost, s'.log = l1 ++ .exit e.value :: .evict k c e.value cost :: l2 := by
-  have h := sweep_reclaims hpc hst hz hreg hregk hlc hnew hcov hexp hclk (runSweep_of_run hrun hbusy) hidle
-  exact ⟨h.store, h.pol, h.em, h.once, h.cb⟩
+  obtain ⟨b', m, hbok, hle, hreg, hregk, hlc, hnew, hcov'⟩ :=
+    registration_at_tick hpre h0 hclk hpc hst hz hexp hcov hadv
+  have h := sweep_reclaims hpc hst hz hbok hle hreg hregk hlc hnew hcov' hexp hclk (runSweep_of_run hrun hbusy) hidle
+  exact ⟨h.store, h.pol, ⟨b', m, hle, hreg, hregk, h.em⟩, h.once, h.cb⟩
 
-/-- **`c14_reclaimed_partial`** (liveness; any interleaving).  Reachable state, applier at its tick step;
-the store holds `e` under `k`, `e` has a TTL, is registered in bucket `b = bucketOf e.exp` with its
-conflict, `lastCleaned < b ≤ cleanupBucket(clock)` (the premise that F6 breaks), times are sane.
-Consider ANY run segment from there (`SweepSeg`: first the tick step, then applier steps interleaved with
-arbitrary spawn / client / tick steps of any number of threads) up to the applier's return to `idle`,
-during which no non-applier step changes the store's entry of `k` (`k` is not re-written or deleted by
-clients).  Then `k` is gone from the store and from the policy's cost table (its capacity is released),
-and during the segment exactly one `OnEvict` for `k` was emitted — `evict k _ e.value _` directly followed
-by `exit e.value`.  `_partial`: nothing is claimed about the index here (clients may re-create the bucket
-for other keys); `c14_reclaimed_isolated` has the index clause. -/
-theorem c14_reclaimed_partial {cfg : Cfg} {s s' : State} {k : Hash} {e : Entry} {m : AMap Hash Conf}
+/-- **`c14_reclaimed_partial`** (liveness; any interleaving).  Same premises as `c14_reclaimed_isolated`
+(a run from the initial state to a state with the applier at its tick step; `e` resident under `k` with a
+TTL; the sweep's clock covers the entry's bucket and at least one new bucket; sane times).  Consider ANY
+run segment from there (`SweepSeg`: first the tick step, then applier steps interleaved with arbitrary
+spawn / client / tick steps of any number of threads) up to the applier's return to `idle`, during which
+no non-applier step changes the store's entry of `k` (`k` is not re-written or deleted by clients).
+Then `k` is gone from the store and from the policy's cost table (its capacity is released), and during
+the segment exactly one `OnEvict` for `k` was emitted — `evict k _ e.value _` directly followed by
+`exit e.value`.  `_partial`: nothing is claimed about the index here (clients may re-create the bucket for
+other keys, and a stale index entry of `k` may survive in a clamped bucket);
+`c14_reclaimed_isolated` has the index clause. -/
+theorem c14_reclaimed_partial {cfg : Cfg} {now0 : Time} {pre : List Action} {s s' : State} {k : Hash} {e : Entry}
     {ch : Choice} {acts : List Action}
-    (hr : Reach cfg s) (hpc : s.app = .tick) (hst : s.store.lookup k = some e) (hz : e.exp ≠ Gen.zeroTime)
-    (hreg : s.em.buckets.lookup (bucketOf e.exp) = some m) (hregk : m.lookup k = some e.conflict)
-    (hlc : -(2:Int)^63 ≤ s.em.lastCleaned) (hnew : s.em.lastCleaned < bucketOf e.exp)
-    (hcov : bucketOf e.exp ≤ cleanupOf s.clock) (hexp : TimeOk e.exp) (hclk : TimeOk s.clock)
+    (hpre : run cfg (init cfg now0) pre = some s) (h0 : TimeOk now0) (hclk : TimeOk s.clock)
+    (hpc : s.app = .tick) (hst : s.store.lookup k = some e) (hz : e.exp ≠ Gen.zeroTime) (hexp : TimeOk e.exp)
+    (hcov : bucketOf e.exp ≤ cleanupOf s.clock) (hadv : s.em.lastCleaned < cleanupOf s.clock)
     (hseg : SweepSeg cfg k s (.applier ch :: acts) s') (hidle : s'.app = .idle) :
     s'.store.lookup k = none ∧ s'.pol.costs.lookup k = none ∧
     evictCount k s'.log = evictCount k s.log + 1 ∧
     ∃ l1 l2 c cost, s'.log = l1 ++ .exit e.value :: .evict k c e.value cost :: l2 := by
-  have h := sweep_reclaims_interleaved hr hpc hst hz hreg hregk hlc hnew hcov hexp hclk hseg hidle
+  obtain ⟨b', m, hbok, hle, hreg, hregk, hlc, hnew, hcov'⟩ :=
+    registration_at_tick hpre h0 hclk hpc hst hz hexp hcov hadv
+  have h := sweep_reclaims_interleaved ⟨now0, pre, hpre⟩ hpc hst hz hbok hle hreg hregk hlc hnew hcov' hexp hclk hseg hidle
   exact ⟨h.store, h.pol, h.once, h.cb⟩
 
-/-- in every reachable state `lastCleaned` is a bucket number (`hlc` of `c14_reclaimed_partial`) -/
-example : (-(2:Int)^63 ≤ (init exCfg 0).em.lastCleaned) := by decide
-
-/-- non-vacuity of the liveness theorems: the hypotheses hold in the state reached by `exSet`, a tick
-to 10 s and the applier's `selTick`; the sweep `[none, key 1, none, none, none, none]` returns to idle. -/
+/-- non-vacuity of the liveness theorems: the premises hold in the state reached by `exSet`, a tick to
+10 s and the applier's `selTick`; the sweep `[none, key 1, none, none, none, none]` returns to idle. -/
 example :
     ((run exCfg (init exCfg 0) (exSet ++ [.tick 10000000000, .applier .selTick])).map fun s =>
-      (apIsTick s.app, s.store.lookup 1#64, (s.em.buckets.lookup (bucketOf 1000000000)).map (·.lookup 1#64),
-       decide (s.em.lastCleaned < bucketOf 1000000000), decide (bucketOf 1000000000 ≤ cleanupOf s.clock)))
-      = some (true, some ⟨0#64, 7, 1000000000⟩, some (some 0#64), true, true) := by
+      (apIsTick s.app, s.store.lookup 1#64, decide (bucketOf 1000000000 ≤ cleanupOf s.clock),
+       decide (s.em.lastCleaned < cleanupOf s.clock)))
+      = some (true, some ⟨0#64, 7, 1000000000⟩, true, true) := by
+  decide
+
+/-- … and in the late-arrival state of the former F6 witness (tick to 100 s, `selTick`) as well. -/
+example :
+    ((run exCfg (init exCfg 0) (exF6Late ++ [.tick 90000000000, .applier .selTick])).map fun s =>
+      (apIsTick s.app, s.store.lookup 1#64, decide (bucketOf 1000000000 ≤ cleanupOf s.clock),
+       decide (s.em.lastCleaned < cleanupOf s.clock)))
+      = some (true, some ⟨0#64, 7, 1000000000⟩, true, true) := by
   decide
 
 /-- non-vacuity of `c14_reclaimed_partial`: from that state, a segment in which a second client writes key 2
